@@ -135,7 +135,9 @@ fn main() {
             };
             let i: u64 = args[3].parse().unwrap_or(0);
             let run_seed = crate::core::rng::mix(seed, world.name(), i);
-            let sc = world.generate(run_seed, Tier::Quick);
+            let _ = run_seed;
+            let tier = if args.iter().any(|a| a == "--thorough") { Tier::Thorough } else { Tier::Quick };
+            let sc = world.generate_at(seed, i, tier);
             let world: Arc<dyn World> = world;
             let out = runner::execute_isolated(&world, &sc, true);
             if args.iter().any(|a| a == "--scenario") {
